@@ -5,6 +5,7 @@ import ITree.Model.KeyExp
 import ITree.Model.Lists
 import ITree.Model.Seg
 import ITree.Model.Check
+import ITree.Model.SegCheck
 /-!
 # Line-protocol driver: evaluates the model definitions (the ones the theorems are about)
 
@@ -335,7 +336,32 @@ def runKList (op : Toks) (s : KL Int) : String :=
     | _, _, _ => "BAD"
   | _ => "BAD"
 
-def runSeg (op : Toks) (s? : Option (Seg Int)) : String :=
+def parseIns : Nat → Toks → Option (List (SegIns Int))
+  | 0, [] => some []
+  | 0, _ => none
+  | n+1, a :: b :: v :: x :: ts => do
+    let a ← tokInt a
+    let b ← tokInt b
+    let v ← tokInt v
+    let x ← tokInt x
+    let rest ← parseIns n ts
+    some (⟨a, b, v, x⟩ :: rest)
+  | _, _ => none
+
+/-- `LV <T|none> <lo> <hi> <n> (<a> <b> <val> <exp>)*`: the values inserted since the last clear -/
+def segWf (s : Seg Int) : Toks → String
+  | "LV" :: t :: lo :: hi :: n :: rest =>
+    match (if t == "none" then some none else (tokInt t).map some), tokInt lo, tokInt hi, tokNat n with
+    | some T, some lo, some hi, some n =>
+      match parseIns n rest with
+      | some lv => if segOKCheck s lv T lo hi then "1" else "0:segrel"
+      | none => "0:badLV"
+    | _, _, _, _ => "0:badLV"
+  | _ => "1"
+
+def runSeg (op : Toks) (s? : Option (Seg Int)) (extra : Toks := []) : String :=
+  let answer := fun (_ : String) (out st tr : String) =>
+    answer (match s? with | some s => segWf s extra | none => "1") out st tr
   match op, s? with
   | ["masks", a, b], _ => match tokNat a, tokNat b with
     | some a, some b => answer "1" s!"{placeMask a b} {visitMask a b}" "-" ""
@@ -406,7 +432,7 @@ def process (line : String) : String :=
       | "new" :: _ => runSeg op none
       | "masks" :: _ => runSeg op none
       | _ => match parseSeg stToks with
-        | some s => runSeg op (some s)
+        | some s => runSeg op (some s) ((rest.drop 1).headD [])
         | none => "BADSTATE"
     else "BADCOLL"
   | _ => "BADLINE"
